@@ -150,7 +150,7 @@ package crlrepository
 //@   ensures[C16,C04,C10,C11] verify_failure_rejects: sigMode(R) == config.SignatureValidationModeVerify && called(verifyCRLSignature#1) && res(verifyCRLSignature#1, 1) != nil ==> err != nil && entry.Loaded == old(entry.Loaded)
 //@   ensures[C16] lenient_modes_accept: called(CRLReader.ReadCRL#1) && res(CRLReader.ReadCRL#1, 1) == nil && sigMode(R) != config.SignatureValidationModeVerify && !(called(CRLPersisterProcessor.UpdateSignatureCertificate#1) && res(CRLPersisterProcessor.UpdateSignatureCertificate#1) != nil) ==> err == nil && entry.Loaded
 //@   ensures[C16] success_means_loaded: err == nil ==> entry.Loaded
-//@   ensures[C11] rejected_crl_leaves_no_entries: err != nil ==> (forall k string :: storeHas(entry.CRLStore, k) == old(storeHas(entry.CRLStore, k)))
+//@   ensures[C11,C12,C16] rejected_crl_leaves_no_entries: err != nil ==> (forall k string :: storeHas(entry.CRLStore, k) == old(storeHas(entry.CRLStore, k)))
 //@   ensures chains_untouched: old(chains != nil && chainsOK(chains)) ==> chainsOK(chains)
 
 //@ func Repository.loadActively
@@ -275,11 +275,13 @@ package crlrepository
 //@   fresh r1
 //@   ensures r0 == nil ==> repoOK(r1)
 
+// note: the callback's third parameter is named err like the result; $2 denotes the parameter
 //@ func Repository.DeleteTempFilesIfExist$1
 //@   props C12 C20
 //@   requires repoOK(R)
 //@   requires err == nil ==> info != nil
 //@   assigns X.fs
-//@   ensures[C12,C20] every_entry_of_the_work_dir_is_examined: err == nil && called(SameFile#1) && !res(SameFile#1) ==> called(Repository.deleteIfTempFileOrDir#1) && arg(Repository.deleteIfTempFileOrDir#1, 1) == path && arg(Repository.deleteIfTempFileOrDir#1, 2) == info
-//@   ensures[C12,C20] only_directories_are_skipped: r0 == filepath.SkipDir && err == nil ==> called(FileInfo.IsDir#1) && res(FileInfo.IsDir#1)
-//@   ensures[C12,C20] the_walk_is_not_aborted: r0 == nil || r0 == filepath.SkipDir || r0 == err
+//@   ensures[C12,C20] every_entry_of_the_work_dir_is_examined: $2 == nil && called(SameFile#1) && !res(SameFile#1) ==> called(Repository.deleteIfTempFileOrDir#1) && arg(Repository.deleteIfTempFileOrDir#1, 1) == path && arg(Repository.deleteIfTempFileOrDir#1, 2) == info
+//@   ensures[C12,C20] only_directories_are_skipped: r0 == filepath.SkipDir && $2 == nil ==> called(FileInfo.IsDir#1) && res(FileInfo.IsDir#1)
+//@   ensures[C12,C20] directories_are_skipped: $2 == nil && called(FileInfo.IsDir#1) && res(FileInfo.IsDir#1) && called(SameFile#2) && !res(SameFile#2) ==> r0 == filepath.SkipDir
+//@   ensures[C12,C20] the_walk_is_not_aborted: r0 == nil || r0 == filepath.SkipDir || r0 == $2
